@@ -59,13 +59,13 @@ def run(ck, build):
     ck.floor("R-C04", "decrypt entry points (AEAD + SIV)", len(fns), 6)
     for f in fns:
         C03.guard_and_must(fl, f, label)
-        C03.args_rule(fl, mod, f, label)
+        C03.args_rule(fl, mod, f, label, parts=("C04",))
     C03.cmp_rule(fl, mod, label)
     fx = Module(build.fixture_facts(os.path.join(os.path.dirname(os.path.dirname(os.path.dirname(__file__))), "fixtures", "c03_bad.c")))
     sub = type(ck)("C04-fixture")
     C03.cmp_rule(sub, fx, "fixture")
     for g in C03.dec_fns(fx):
-        C03.args_rule(sub, fx, g, "fixture")
+        C03.args_rule(sub, fx, g, "fixture", parts=("C04",))
     got = {v["construct"].split("[")[0] for v in sub.violations}
     for want in ("wipe-coverage", "wipe-start"):
         ck.control("c03_bad.c:" + want, want in got, "got %s" % sorted(got))
